@@ -295,7 +295,12 @@ Print Assumptions vprog_validated.
    converted operands back - after a FORPREP that returned, the three hidden cells hold the numbers
    the operands denote -, and the consumer, which type-asserts the three cells on every
    iteration, never raises on such a state and keeps it while the loop continues *)
+From Coq Require Floats.
 From GL Require VMX.ForFacts.
+(* the Import is local to this section: at top level it would make every later Print Assumptions
+   print the float primitives unqualified, outside the allow-list of props/C01.json *)
+Section ForLoopSites.
+Import Floats.
 
 Theorem forprep_normalises : forall ml gf cl cf inst base s b s',
   op_of_code (opGetOpCode inst) = Some OP_FORPREP ->
@@ -309,7 +314,6 @@ Theorem forprep_normalises : forall ml gf cl cf inst base s b s',
     Get (vreg s') (RA + 1) = Some (VNum limit) /\
     Get (vreg s') (RA + 2) = Some (VNum step) /\ b = false.
 Proof. exact VMX.ForFacts.forprep_normalises_lemma. Qed.
-Print Assumptions forprep_normalises.
 
 Theorem forloop_numbers_never_raise : forall ml gf cl cf inst base s i l st,
   op_of_code (opGetOpCode inst) = Some OP_FORLOOP ->
@@ -317,7 +321,6 @@ Theorem forloop_numbers_never_raise : forall ml gf cl cf inst base s i l st,
   Get (vreg s) RA = Some (VNum i) -> Get (vreg s) (RA + 1) = Some (VNum l) -> Get (vreg s) (RA + 2) = Some (VNum st) ->
   forall v s', exec_op ml gf cl cf inst base s <> VErr v s'.
 Proof. exact VMX.ForFacts.forloop_numbers_never_raise_lemma. Qed.
-Print Assumptions forloop_numbers_never_raise.
 
 Theorem forloop_keeps_numbers : forall ml gf cl cf inst base s b s' i l st,
   op_of_code (opGetOpCode inst) = Some OP_FORLOOP ->
@@ -329,7 +332,6 @@ Theorem forloop_keeps_numbers : forall ml gf cl cf inst base s b s' i l st,
   Get (vreg s') RA = Some (VNum (i + st)%float) /\ Get (vreg s') (RA + 1) = Some (VNum l) /\
   Get (vreg s') (RA + 2) = Some (VNum st) /\ Get (vreg s') (RA + 3) = Some (VNum (i + st)%float) /\ b = false.
 Proof. exact VMX.ForFacts.forloop_keeps_numbers_lemma. Qed.
-Print Assumptions forloop_keeps_numbers.
 
 Theorem forprep_then_forloop : forall ml gf cl cf inst base s b s' ml' gf' cl' inst' base',
   op_of_code (opGetOpCode inst) = Some OP_FORPREP ->
@@ -339,6 +341,10 @@ Theorem forprep_then_forloop : forall ml gf cl cf inst base s b s' ml' gf' cl' i
   exec_op ml gf cl cf inst base s = VRet b s' ->
   forall cf' v s'', fr_localbase cf' = fr_localbase cf -> exec_op ml' gf' cl' cf' inst' base' s' <> VErr v s''.
 Proof. exact VMX.ForFacts.forprep_then_forloop_lemma. Qed.
+End ForLoopSites.
+Print Assumptions forprep_normalises.
+Print Assumptions forloop_numbers_never_raise.
+Print Assumptions forloop_keeps_numbers.
 Print Assumptions forprep_then_forloop.
 
 (* The full statement of C01 over the implementation: for every program the compiler's output run
